@@ -15,14 +15,14 @@ import (
 // and one follow-up block on the real code.  Two other validators stay active and sign, so the
 // deliverability hypothesis holds and the pause guard lets messages through.
 
-var sysNames = []string{"upgrade-pause", "downtime", "evidence", "claim", "pause", "unpause", "activate", "unjail", "reset", "rotate"}
-var sysPhase = []int{0, 1, 2, 3, 3, 3, 3, 4, 4, 3}
+var sysNames = []string{"upgrade-pause", "downtime", "evidence", "claim", "pause", "unpause", "activate", "unjail", "reset", "rotate", "rotate-half-rr"}
+var sysPhase = []int{0, 1, 2, 3, 3, 3, 3, 4, 4, 3, 3}
 var sysStarts = []string{"NEW", "ACTIVE", "INACTIVE", "PAUSED", "JAILED"}
 
 func sysValid(t []int) bool {
 	nrot := 0
 	for _, o := range t {
-		if o == 9 {
+		if o == 9 || o == 10 {
 			nrot++
 		}
 	}
@@ -145,10 +145,15 @@ func runSys(x *hist, r *hx.Rng, g int, start string, t []int, genesisAfter bool)
 			x.ownerMsg("unpause", a)
 		case 6:
 			x.ownerMsg("activate", a)
-		case 9:
-			// address rotation: the later operations of the block follow the record to its new address
+		case 9, 10:
+			// address rotation (by recovery secret / by a holder of half of the recovery tokens): the later
+			// operations of the block follow the record to its new address
 			if _, isVal := x.prev.Vals[o[2]]; !isVal && !x.dead {
-				x.rotate(a, o[2])
+				if op == 9 {
+					x.rotate(a, o[2])
+				} else {
+					x.rotateHalf(a, o[2])
+				}
 				a, o[2] = o[2], a
 			}
 		}
